@@ -243,15 +243,14 @@ def finish(prop, meta, tier, seed, results, det_res, t0, t_warm, jobs, no_eviden
         print(f"HARNESS-ERROR {len(errors)} run(s) raised inside the harness; first:")
         print(json.dumps(errors[0], indent=1)[:6000])
         rc = 2
-    if mism:
-        print(f"HARNESS-ERROR determinism self-check failed for run indices {mism[:10]}")
-        rc = 2
+    det_failed = bool(mism)
     for kid, e in sorted(known_lines.items()):
         print(f"KNOWN-FINDING: property={prop} {kid}: {e['what']} (hit {e['count']}x, e.g. run {e['example_run']})")
     replay_paths = []
     if violations and rc == 0:
         os.makedirs(os.path.join(VERIF, "replays"), exist_ok=True)
         seen = set()
+        unconfirmed = []
         for v in violations:
             if "scenario" not in v or v["class"] in seen:
                 continue
@@ -270,11 +269,27 @@ def finish(prop, meta, tier, seed, results, det_res, t0, t_warm, jobs, no_eviden
                 print(f"VIOLATION property={prop} replay={path}")
                 print(f"  class={v['class']} run={v['run']} detail={v['detail'][:300]}")
                 replay_paths.append(path)
-                rc = 1
             else:
-                print(f"HARNESS-ERROR replay of run {v['run']} ({v['class']}) did not reproduce:\n{p.stdout[-2000:]}{p.stderr[-2000:]}")
-                rc = 2
-                break
+                unconfirmed.append((v, p.stdout[-1500:] + p.stderr[-1500:]))
+        if replay_paths:
+            rc = 1
+            for v, _tail in unconfirmed:
+                # seen in a worker but not in a fresh interpreter: the outcome depended on what the
+                # worker process had executed before (state leaking across runs inside the library)
+                print(f"UNCONFIRMED run={v['run']} class={v['class']}: did not reproduce in a fresh interpreter (depends on process history)")
+        elif unconfirmed:
+            v, tail = unconfirmed[0]
+            print(f"HARNESS-ERROR replay of run {v['run']} ({v['class']}) did not reproduce:\n{tail}")
+            rc = 2
+    if det_failed:
+        if rc == 1:
+            # a confirmed, replayable violation takes precedence; the digest mismatch is then most
+            # likely the same defect seen through state that leaks from one run into the next
+            print(f"NOTE determinism self-check: run indices {mism[:10]} gave different event digests in another process "
+                  "(outcome depends on what the process executed before)")
+        else:
+            print(f"HARNESS-ERROR determinism self-check failed for run indices {mism[:10]}")
+            rc = 2
     wall = time.time() - t0
     if not no_evidence and rc != 2:
         samples = [s for r in results for s in r["samples"]][:4]
